@@ -140,12 +140,13 @@ inductive Region where
   | WF
   | Out
   | F_star_noline    -- `-type=*` without a matching go:generate line: `.shoot<cmd>.go`
+  | F_nonpkg_type    -- a function-local type / a predeclared type with typed constants is listed or accepted by name: output for a type that is not a type of the package
   | F_star_sep       -- `-type=* -sep`: every type gets the go:generate file's prefix (or none)
   deriving DecidableEq, Repr
 
 def Region.str : Region → String
   | .WF => "WF" | .Out => "Out" | .F_star_noline => "F_star_noline"
-  | .F_star_sep => "F_star_sep"
+  | .F_star_sep => "F_star_sep" | .F_nonpkg_type => "F_nonpkg_type"
 
 def noLocals : List Decl → Bool
   | [] => true
@@ -198,8 +199,22 @@ def allInFile (pkg : Pkg) (ns : List String) (file : Option String) : Bool :=
   | none => true
   | some f => ns.all (fun n => fileOf pkg n == some f)
 
-def region (cmd : Cmd) (pkg : Pkg) (fl : Flags) : Region :=
-  if !validPkg pkg then .Out else
+/-- valid Go package as far as file names, package-level names and const blocks go — function-local type declarations and
+    constants of predeclared types (`const Max int = 3`) are allowed here -/
+def validPkgL (pkg : Pkg) : Bool :=
+  (pkg.map File.name).Nodup && ((declared pkg).map (·.2.name)).Nodup
+    && (((declared pkg).map (·.2.name)).map comp).Nodup
+    && pkg.all (fun f => constsValid f.decls && endsGo f.name)
+    && !((declared pkg).map (·.2.name)).contains ""
+
+/-- `-file=f.go -type=…` where f.go is a file of the package and some name is not a package-level type declared in f.go
+    (missing, declared elsewhere, function-local, a type parameter, predeclared): confirmTypes stops the run -/
+def namedNotInFile (pkg : Pkg) (fl : Flags) : Bool :=
+  match mode fl with
+  | some (.named ns (some f)) => (pkg.map File.name).contains f && ns.any (fun n => fileOf pkg n != some f)
+  | _ => false
+
+def regionValid (cmd : Cmd) (pkg : Pkg) (fl : Flags) : Region :=
   match mode fl with
   | none => .Out
   | some (.named ns file) =>
@@ -214,5 +229,16 @@ def region (cmd : Cmd) (pkg : Pkg) (fl : Flags) : Region :=
     else match g with
       | none => if sep then .F_star_sep else .F_star_noline
       | some g => if sep && !e.all (fun n => fileOf pkg n == some g) then .F_star_sep else .WF
+
+def region (cmd : Cmd) (pkg : Pkg) (fl : Flags) : Region :=
+  if validPkg pkg then regionValid cmd pkg fl
+  else if pkg.all (fun f => endsGo f.name) && namedNotInFile pkg fl then .WF     -- whatever else the package contains
+  else if validPkgL pkg then
+    -- only function-local types / constants of predeclared types keep the package out of `validPkg`: where the model
+    -- (= the code) then misses the specification it is this finding, elsewhere the input stays advisory
+    match spec cmd pkg fl with
+    | some s => if meets (run cmd pkg fl) s then .Out else .F_nonpkg_type
+    | none => .Out
+  else .Out
 
 end ShootVerif.Cli
